@@ -1287,7 +1287,8 @@ impl<'a> Runner<'a> {
             if self.mon.cas && self.subj.kind.entry == Entry::Http && !self.subj.kind.socket && self.clients[c].touched && self.rng.pct(12) {
                 self.mon_broken_upload(c);
             }
-            if self.mon.frame && self.subj.kind.entry == Entry::Http && self.rng.pct(30) {
+            // (outside C18 at a low rate as well: a refused request is a no-op for every property)
+            if self.subj.kind.entry == Entry::Http && self.rng.pct(if self.mon.frame { 30 } else { 6 }) {
                 self.mon_refused(c, false);
             }
             if self.mon.chain && (i % self.walk_every == 0 || i + 1 == ops.len()) {
